@@ -495,3 +495,329 @@ Proof.
     + apply R_idle; cbn [etype hd off]; auto. rewrite Hn1. reflexivity.
     + repeat split; cbn [npm iva ncnt hd]; auto; congruence.
 Qed.
+
+Lemma run_sim : forall fx toks c m st, R c st -> common c m -> Forall tok_ok toks ->
+  match run_toks fx toks c with
+  | Ok c1 => R c1 (sfold toks m st) /\ exists m1, common c1 m1
+  | _ => sfold toks m st = None
+  end.
+Proof.
+  intros fx. induction toks as [|tk r IH]; intros c m st HR Hc Hok.
+  - cbn. split; [exact HR|]. exists m. exact Hc.
+  - inversion Hok as [|? ? Hok1 Hok2]; subst. cbn [run_toks sfold].
+    pose proof (step_sim fx tk c m st HR Hc Hok1) as H.
+    destruct (step_tok fx tk c) as [c1| | | | |]; cbn [bind]; try (rewrite H; apply sfold_none).
+    destruct H as [HR1 Hc1]. apply IH; assumption.
+Qed.
+
+(* the NUL case of __Pyx_BufFmt_CheckString *)
+Definition finish (fx : fixes) (c : ctx) : res unit :=
+  if negb (etype c =? 0) && (match hd c with [] => true | _ => false end) then Err
+  else bind (process_chunk fx c) (fun c1 => match hd c1 with [] => Ok tt | _ => Err end).
+
+Lemma finish_sim : forall fx c st, R c st -> flat_wf (hd c) ->
+  (finish fx c = Ok tt <-> exists o, st = Some ([], o)).
+Proof.
+  intros fx c st HR Hw. unfold finish.
+  destruct (negb (etype c =? 0) && _) eqn:Hb.
+  - apply andb_prop in Hb. destruct Hb as [Hb1 Hb2].
+    split; [discriminate|]. intros [o Ho]. exfalso.
+    destruct HR as [He Hs|t m' He Hc Hp Hm Hk Hs].
+    + rewrite He in Hb1. discriminate.
+    + destruct (hd c); [|discriminate]. rewrite Hs in Ho. unfold pend_st in Ho.
+      destruct (msize m' t =? 0); discriminate.
+  - clear Hb. pose proof (flush fx c st HR Hw) as H.
+    destruct (process_chunk fx c) as [c1| | | | |]; cbn [bind];
+      try (rewrite H; split; [discriminate|intros [o Ho]; discriminate]).
+    destruct H as (-> & _). destruct (hd c1).
+    + split; [intros _; eexists; reflexivity|reflexivity].
+    + split; [discriminate|intros [o Ho]; discriminate].
+Qed.
+
+(* ------------------------------------------------------------------ *)
+(* 4. character level: __Pyx_BufFmt_CheckString on the rendering of a token *)
+(* ------------------------------------------------------------------ *)
+Definition cost (tk : tok) : nat :=
+  match tk with TItem (_ :: _) _ | TPad (_ :: _) => 2%nat | _ => 1%nat end.
+Fixpoint costs (toks : list tok) : nat := match toks with [] => O | tk :: r => (cost tk + costs r)%nat end.
+
+Lemma digit_cases : forall d, is_digit d = true ->
+  d = 48 \/ d = 49 \/ d = 50 \/ d = 51 \/ d = 52 \/ d = 53 \/ d = 54 \/ d = 55 \/ d = 56 \/ d = 57.
+Proof. unfold is_digit. intros. lia. Qed.
+
+Lemma cs_digit : forall fx f d r c, is_digit d = true ->
+  check_string fx (S f) (d :: r) c =
+  bind (expect_number (d :: r)) (fun '(n, r1) => check_string fx f r1 (set_ncnt c n)).
+Proof.
+  intros fx f d r c H. apply digit_cases in H.
+  destruct H as [->|[->|[->|[->|[->|[->|[->|[->|[->| ->]]]]]]]]]; reflexivity.
+Qed.
+
+Lemma cs_code : forall fx t f rest c,
+  check_string fx (S f) (code_chars t ++ rest) c =
+  bind (type_char fx (tchar t) (tcplx t) true c) (fun c1 => check_string fx f rest c1).
+Proof. intros fx t f rest c. destruct t; reflexivity. Qed.
+
+Lemma cs_x : forall fx f rest c,
+  check_string fx (S f) (120 :: rest) c =
+  bind (pad_step fx c) (fun c1 => check_string fx f rest c1).
+Proof. intros. unfold pad_step. cbn [check_string]. destruct (process_chunk fx c); reflexivity. Qed.
+
+Lemma code_no_digit : forall t rest, no_digit_head (code_chars t ++ rest).
+Proof. destruct t; reflexivity. Qed.
+
+Lemma skip_name_ok : forall fx n rest, Forall (fun ch => ch <> 58 /\ ch <> 0) n ->
+  skip_name fx (n ++ 58 :: rest) = Ok rest.
+Proof.
+  intros fx. induction n as [|ch n IH]; intros rest H; [reflexivity|].
+  inversion H as [|? ? [H1 _] H2]; subst. cbn [app skip_name].
+  replace (ch =? 58) with false by lia. apply IH. exact H2.
+Qed.
+
+Lemma set_ncnt_id : forall c, ncnt c = 1 -> set_ncnt c 1 = c.
+Proof. intros [h o nc ec sa cp et np ep iv] H. cbn in H. subst. reflexivity. Qed.
+
+Lemma expect_digits : forall ds rest, ds <> [] -> digits ds -> no_digit_head rest -> dval 0 ds <= INT_MAX ->
+  expect_number (ds ++ rest) = Ok (dval 0 ds, rest).
+Proof.
+  intros ds rest Hne Hd Hr Hv. unfold expect_number.
+  destruct (parse_number_digits ds rest Hne Hd Hr) as [H _]. rewrite (H Hv). reflexivity.
+Qed.
+
+Lemma cs_tok : forall fx tk f rest c, tok_ok tk -> ncnt c = 1 ->
+  check_string fx (cost tk + f) (render_tok tk ++ rest) c =
+  bind (step_tok fx tk c) (fun c1 => check_string fx f rest c1).
+Proof.
+  intros fx tk f rest c Hok Hn.
+  destruct tk as [ch|m alt|n|ds t|ds]; cbn [tok_ok] in Hok.
+  - cbn [In] in Hok. destruct Hok as [<-|[<-|[<-|[]]]]; reflexivity.
+  - destruct m, alt; reflexivity.
+  - cbn [render_tok cost step_tok bind]. cbn [app]. rewrite <- app_assoc. cbn [app].
+    change (check_string fx (1 + f) (58 :: n ++ 58 :: rest) c)
+      with (bind (skip_name fx (n ++ 58 :: rest)) (fun r1 => check_string fx f r1 c)).
+    rewrite skip_name_ok by exact Hok. reflexivity.
+  - destruct Hok as [Hd Hv]. cbn [render_tok step_tok]. rewrite <- app_assoc.
+    destruct ds as [|d ds].
+    + cbn [app cost count_of]. rewrite set_ncnt_id by exact Hn. apply cs_code.
+    + destruct Hv as [Hv|Hv]; [discriminate|].
+      change (cost (TItem (d :: ds) t) + f)%nat with (S (S f)).
+      cbn [app]. inversion Hd as [|? ? Hd1 Hd2]; subst.
+      rewrite cs_digit by exact Hd1.
+      change (d :: ds ++ code_chars t ++ rest) with ((d :: ds) ++ (code_chars t ++ rest)).
+      rewrite expect_digits; [|discriminate|exact Hd|apply code_no_digit|lia].
+      cbn [bind count_of]. apply cs_code.
+  - destruct Hok as [Hd Hv]. cbn [render_tok step_tok]. rewrite <- app_assoc.
+    destruct ds as [|d ds].
+    + cbn [app cost count_of]. rewrite set_ncnt_id by exact Hn. apply cs_x.
+    + destruct Hv as [Hv|Hv]; [discriminate|].
+      change (cost (TPad (d :: ds)) + f)%nat with (S (S f)).
+      cbn [app]. inversion Hd as [|? ? Hd1 Hd2]; subst.
+      rewrite cs_digit by exact Hd1.
+      change (d :: ds ++ 120 :: rest) with ((d :: ds) ++ (120 :: rest)).
+      rewrite expect_digits; [|discriminate|exact Hd|reflexivity|lia].
+      cbn [bind count_of]. apply cs_x.
+Qed.
+
+Lemma step_ncnt : forall fx tk c c1, ncnt c = 1 -> step_tok fx tk c = Ok c1 -> ncnt c1 = 1.
+Proof.
+  intros fx tk c c1 Hn H. destruct tk as [ch|m alt|n|ds t|ds]; cbn [step_tok] in H.
+  - injection H as <-. exact Hn.
+  - destruct m; try discriminate; injection H as <-; exact Hn.
+  - injection H as <-. exact Hn.
+  - unfold type_char in H. destruct (_ && _) in H.
+    + injection H as <-. reflexivity.
+    + destruct (process_chunk fx _); try discriminate. cbn [bind] in H. injection H as <-. reflexivity.
+  - unfold pad_step in H. destruct (process_chunk fx _); try discriminate. cbn [bind] in H. injection H as <-. reflexivity.
+Qed.
+
+Lemma cs_toks : forall fx toks f rest c, Forall tok_ok toks -> ncnt c = 1 ->
+  check_string fx (costs toks + f) (render_body toks ++ rest) c =
+  bind (run_toks fx toks c) (fun c1 => check_string fx f rest c1).
+Proof.
+  intros fx. induction toks as [|tk r IH]; intros f rest c Hok Hn; [reflexivity|].
+  inversion Hok as [|? ? Hok1 Hok2]; subst.
+  cbn [costs run_toks]. unfold render_body. cbn [map concat]. fold (render_body r).
+  rewrite <- app_assoc, <- Nat.add_assoc, cs_tok by assumption.
+  destruct (step_tok fx tk c) as [c1| | | | |] eqn:E; cbn [bind]; try reflexivity.
+  apply IH; [exact Hok2|]. exact (step_ncnt fx tk c c1 Hn E).
+Qed.
+
+Lemma cost_le : forall tk, tok_ok tk -> (cost tk <= length (render_tok tk))%nat.
+Proof.
+  intros [ch|m alt|n|ds t|ds] _; cbn [cost render_tok length]; try lia.
+  - destruct ds; rewrite app_length; destruct t; cbn; lia.
+  - destruct ds; rewrite app_length; cbn; lia.
+Qed.
+
+Lemma costs_le : forall toks, Forall tok_ok toks -> (costs toks <= length (render_body toks))%nat.
+Proof.
+  induction toks as [|tk r IH]; intros H; [cbn; lia|]. inversion H; subst.
+  unfold render_body. cbn [map concat costs]. rewrite app_length. fold (render_body r).
+  pose proof (cost_le tk ltac:(assumption)). specialize (IH ltac:(assumption)). lia.
+Qed.
+
+Lemma cstr_id : forall s, Forall (fun ch => ch <> 0) s -> cstr s = s.
+Proof.
+  induction s as [|ch r IH]; intros H; [reflexivity|]. inversion H; subst. cbn [cstr].
+  replace (ch =? 0) with false by lia. rewrite IH by assumption. reflexivity.
+Qed.
+
+Lemma render_nz : forall toks, Forall tok_ok toks -> Forall (fun ch => ch <> 0) (render_body toks).
+Proof.
+  induction toks as [|tk r IH]; intros H; [constructor|]. inversion H as [|? ? H1 H2]; subst.
+  unfold render_body. cbn [map concat]. apply Forall_app. split; [|apply IH; exact H2].
+  destruct tk as [ch|m alt|n|ds t|ds]; cbn [tok_ok render_tok] in *.
+  - cbn [In] in H1. constructor; [lia|constructor].
+  - destruct m, alt; repeat constructor; discriminate.
+  - constructor; [discriminate|]. apply Forall_app. split; [|repeat constructor; discriminate].
+    eapply Forall_impl; [|exact H1]. cbn. tauto.
+  - apply Forall_app. split.
+    + destruct H1 as [Hd _]. eapply Forall_impl; [|exact Hd]. cbn. unfold is_digit. lia.
+    + destruct t; repeat constructor; discriminate.
+  - apply Forall_app. split; [|repeat constructor; discriminate].
+    destruct H1 as [Hd _]. eapply Forall_impl; [|exact Hd]. cbn. unfold is_digit. lia.
+Qed.
+
+(* ------------------------------------------------------------------ *)
+(* 5. spec_accept (layout + layout_matches) = the matcher               *)
+(* ------------------------------------------------------------------ *)
+Lemma items_at_S : forall kd sz o k,
+  items_at kd sz o (Z.of_nat (S k)) = (kd, sz, o) :: items_at kd sz (o + sz) (Z.of_nat k).
+Proof.
+  intros. unfold items_at. rewrite !Nat2Z.id. cbn [seq map]. f_equal.
+  - f_equal. cbn. lia.
+  - rewrite <- seq_shift, map_map. apply map_ext. intros i. f_equal. rewrite Nat2Z.inj_succ. lia.
+Qed.
+
+Lemma lm_consume : forall kd sz l k o fs,
+  layout_matches (items_at kd sz o (Z.of_nat (S k)) ++ l) fs = true <->
+  exists fs', consume (Z.of_nat (S k)) kd sz o fs = Some (fs', o + Z.of_nat (S k) * sz) /\
+              layout_matches l fs' = true.
+Proof.
+  intros kd sz l. induction k as [|k IH]; intros o fs; rewrite items_at_S; cbn [app layout_matches].
+  - change (items_at kd sz (o + sz) (Z.of_nat 0)) with (@nil item). cbn [app].
+    destruct fs as [|f r]; [split; [discriminate|intros (fs' & H & _); discriminate]|].
+    rewrite consume_cons. change (Z.of_nat 1 =? 1) with true. cbv iota.
+    destruct (item_matches (kd, sz, o) f); cbn [andb].
+    + replace (o + Z.of_nat 1 * sz) with (o + sz) by lia.
+      split; [intros H; exists r; auto|intros (fs' & [= <-] & H); exact H].
+    + split; [discriminate|intros (fs' & H & _); discriminate].
+  - destruct fs as [|f r]; [split; [discriminate|intros (fs' & H & _); discriminate]|].
+    rewrite consume_cons. replace (Z.of_nat (S (S k)) =? 1) with false by lia.
+    replace (Z.of_nat (S (S k)) - 1) with (Z.of_nat (S k)) by lia.
+    replace (o + Z.of_nat (S (S k)) * sz) with (o + sz + Z.of_nat (S k) * sz) by lia.
+    destruct (item_matches (kd, sz, o) f); cbn [andb]; [apply IH|].
+    split; [discriminate|intros (fs' & H & _); discriminate].
+Qed.
+
+Lemma layout_smatch : forall toks m o fs, Forall tok_ok toks ->
+  ((exists l e, layout toks m o = Some (l, e) /\ layout_matches l fs = true) <->
+   exists o', smatch toks m o fs = Some ([], o')).
+Proof.
+  induction toks as [|tk r IH]; intros m o fs Hok.
+  - cbn [layout smatch]. split.
+    + intros (l & e & [= <- <-] & H). destruct fs; [eexists; reflexivity|discriminate].
+    + intros (o' & [= -> <-]). exists [], o. split; reflexivity.
+  - inversion Hok as [|? ? Hok1 Hok2]; subst.
+    destruct tk as [ch|m' alt|n|ds t|ds]; cbn [layout smatch]; try (apply IH; exact Hok2).
+    + destruct m'; try (apply IH; exact Hok2).
+      split; [intros (l & e & H & _); discriminate|intros (o' & H); discriminate].
+    + pose proof (count_item_pos ds t Hok1) as Hn.
+      destruct (msize m t =? 0).
+      { split; [intros (l & e & H & _); discriminate|intros (o' & H); discriminate]. }
+      assert (Ek : count_of ds = Z.of_nat (S (Z.to_nat (count_of ds - 1)))) by lia.
+      set (n := count_of ds) in *. set (k := Z.to_nat (n - 1)) in *.
+      split.
+      * intros (l & e & H & Hm).
+        destruct (layout r m (malign m t o + n * msize m t)) as [[l1 e1]|] eqn:El; [|discriminate].
+        injection H as <- <-. rewrite Ek in Hm. apply lm_consume in Hm. destruct Hm as (fs' & Hc & Hm).
+        rewrite <- Ek in Hc. rewrite Hc. apply IH; [exact Hok2|]. exists l1, e1. split; [exact El|exact Hm].
+      * intros (o' & H).
+        destruct (consume n (code_kind t) (msize m t) (malign m t o) fs) as [[h1 o1]|] eqn:Ec; [|discriminate].
+        destruct (consume_off _ _ _ _ _ _ _ Hn Ec) as [-> _].
+        assert (H' : exists o'0, smatch r m (malign m t o + n * msize m t) h1 = Some ([], o'0)) by (exists o'; exact H).
+        apply (IH m _ h1 Hok2) in H'. destruct H' as (l1 & e1 & El & Hm).
+        rewrite El. exists (items_at (code_kind t) (msize m t) (malign m t o) n ++ l1), e1.
+        split; [reflexivity|]. rewrite Ek. apply lm_consume. exists h1. rewrite <- Ek. split; assumption.
+Qed.
+
+Lemma spec_accept_smatch : forall toks ti isz, Forall tok_ok toks ->
+  (spec_accept (FPlain toks) ti isz = true <->
+   (exists o', smatch toks MNative 0 (ti_fields ti) = Some ([], o')) /\ isz = ti_size ti).
+Proof.
+  intros toks ti isz Hok. unfold spec_accept. cbn [fmt_toks].
+  rewrite <- (layout_smatch toks MNative 0 (ti_fields ti) Hok).
+  destruct (layout toks MNative 0) as [[l e]|].
+  - rewrite andb_true_iff, Z.eqb_eq. split.
+    + intros [H1 H2]. split; [exists l, e; auto|exact H2].
+    + intros [(l' & e' & [= <- <-] & H1) H2]. auto.
+  - split; [discriminate|intros [(l' & e' & H & _) _]; discriminate].
+Qed.
+
+(* ------------------------------------------------------------------ *)
+(* 6. MAIN: every plain token list with arbitrary counts                *)
+(* ------------------------------------------------------------------ *)
+Lemma cs_nil : forall fx f c,
+  check_string fx (S f) [] c =
+  if negb (etype c =? 0) && (match hd c with [] => true | _ => false end) then Err
+  else bind (process_chunk fx c) (fun c1 => match hd c1 with [] => Ok ([], c1) | _ => Err end).
+Proof. reflexivity. Qed.
+
+Theorem accept_iff_layout_counts : forall fx toks ti isz,
+  Forall tok_ok toks -> flat_wf (ti_fields ti) ->
+  (check fx (render (FPlain toks)) ti isz = Ok tt <-> spec_accept (FPlain toks) ti isz = true).
+Proof.
+  intros fx toks ti isz Hok Hw.
+  rewrite (spec_accept_smatch toks ti isz Hok), smatch_sfold.
+  unfold check, check_fuel. cbn [render].
+  rewrite (cstr_id _ (render_nz toks Hok)).
+  pose proof (costs_le toks Hok) as Hc.
+  replace (S (length (render_body toks))) with (costs toks + S (length (render_body toks) - costs toks))%nat by lia.
+  rewrite <- (app_nil_r (render_body toks)) at 2.
+  rewrite cs_toks; [|exact Hok|reflexivity].
+  assert (HR : R (init ti) (Some (ti_fields ti, 0))) by (apply R_idle; reflexivity).
+  assert (Hcm : common (init ti) MNative) by (repeat split; auto; discriminate).
+  pose proof (run_sim fx toks (init ti) MNative _ HR Hcm Hok) as H.
+  destruct (run_toks fx toks (init ti)) as [c1| | | | |]; cbn [bind];
+    try (rewrite H; split; [discriminate|intros [[o Ho] _]; discriminate]).
+  destruct H as [HR1 [m1 (_ & _ & _ & _ & Hw1)]].
+  rewrite <- (finish_sim fx c1 _ HR1 Hw1).
+  rewrite cs_nil.
+  unfold finish.
+  destruct (negb (etype c1 =? 0) && _); cbn [bind]; [split; [discriminate|intros [H _]; discriminate]|].
+  destruct (process_chunk fx c1) as [c2| | | | |]; cbn [bind];
+    try (split; [discriminate|intros [H _]; discriminate]).
+  destruct (hd c2) as [|f0 r0]; cbn [bind]; [|split; [discriminate|intros [H _]; discriminate]].
+  destruct (Z.eqb_spec isz (ti_size ti)); split; auto; try discriminate; intros [_ H]; congruence.
+Qed.
+
+(* every canonical decimal numeral (with any number of leading zeros) is a count of the fragment and
+   denotes n in the spec: so the theorem above covers "<n><code>" and "<n>x" for ALL n up to INT_MAX *)
+Lemma decimal_count : forall n k, 0 <= n ->
+  digits (repeat 48 k ++ decimal n) /\ repeat 48 k ++ decimal n <> [] /\
+  count_of (repeat 48 k ++ decimal n) = n /\ dval 0 (repeat 48 k ++ decimal n) = n.
+Proof.
+  intros n k Hn.
+  assert (Hne : repeat 48 k ++ decimal n <> []).
+  { intros E. apply app_eq_nil in E. destruct E as [_ E]. exact (decimal_nonempty n E). }
+  assert (Hv : dval 0 (repeat 48 k ++ decimal n) = n) by (rewrite dval_app, zeros_dval; apply decimal_dval; exact Hn).
+  split; [apply digits_app; [apply zeros_digits|apply decimal_digits; exact Hn]|].
+  split; [exact Hne|]. split; [|exact Hv].
+  unfold count_of. destruct (repeat 48 k ++ decimal n); [congruence|exact Hv].
+Qed.
+
+Lemma decimal_item_ok : forall n k t, 1 <= n <= INT_MAX -> tok_ok (TItem (repeat 48 k ++ decimal n) t).
+Proof.
+  intros n k t Hn. destruct (decimal_count n k ltac:(lia)) as (Hd & _ & _ & Hv).
+  split; [exact Hd|]. right. rewrite Hv. exact Hn.
+Qed.
+
+Lemma decimal_pad_ok : forall n k, 0 <= n <= INT_MAX -> tok_ok (TPad (repeat 48 k ++ decimal n)).
+Proof.
+  intros n k Hn. destruct (decimal_count n k ltac:(lia)) as (Hd & _ & _ & Hv).
+  split; [exact Hd|]. right. rewrite Hv. lia.
+Qed.
+
+(* n consecutive members of one scalar type *)
+Definition run_ti (g sz : Z) (n : nat) : tinfo :=
+  mktinfo (map (fun i => (mkleaf g sz [], Z.of_nat i * sz)) (seq 0 n)) (Z.of_nat n * sz) 0.
